@@ -8,7 +8,7 @@
 From Coq Require Import NArith ZArith List Bool String.
 Import ListNotations.
 From Molli Require Import Model.UKV Model.MiniPy Model.Backend Model.MiniPyB Gen.UKVCode Gen.BackendCode
-  Proofs.UKVBase Proofs.UKVCode Proofs.BackendCode Proofs.BackendMode Proofs.BackendSession.
+  Proofs.UKVBase Proofs.UKVCode Proofs.BackendCode Proofs.BackendMode Proofs.BackendSession Proofs.BackendWhole.
 Local Open Scope string_scope.
 Local Open Scope N_scope.
 
@@ -145,6 +145,25 @@ Theorem C04_code_reading_session : forall fuel s f b hh1 hh2 bb0 rest,
   o1 = BONormal /\ o2 = BONormal /\ BRep s2 f2 b2 /\ bheld s2 = None /\ st b2 = SIdle.
 Proof. exact reading_session_code. Qed.
 Print Assumptions C04_code_reading_session.
+
+(* A whole writing session through the translated code -- writing().__enter__, one put, writing().__exit__ -- is the model's
+   b_begin_w ; b_put ; b_end_w for every backend state, file, key and value and ANY buffer size (the put may reach the file at
+   once, at the end of the session, or fail there), and ends with the lock released and the state idle. *)
+Theorem C04_code_writing_session_put : forall fuel s f b hh1 hh2 bb0 rest k v,
+  (List.length f < fuel)%nat -> (S (S (List.length (queue b))) < fuel)%nat -> BRep s f b -> ro b = false ->
+  f = (mk_header hh1 hh2 bb0 ++ rest)%list -> List.length hh1 = 16%nat -> len hh2 < 65536 -> len bb0 < 4294967296 ->
+  (has_uk b = false -> uk b = h0) -> (forall k0, last (uk b) = Some k0 -> lookup (toc (uk b)) k0 <> None) ->
+  bheld s = None -> (has_inner s = true -> has_mode s) ->
+  bloc s "key" = Some k -> bloc s "value" = Some v ->
+  let '(s1, o1) := bexec fuel writing_enter_prog s in
+  let '(s2, o2) := bexec fuel bput_prog s1 in
+  let '(s3, o3) := bexec fuel writing_exit_prog s2 in
+  let '(f1, b1, _) := b_begin_w f b in
+  let '(f2, b2, r2) := b_put f1 b1 k v in
+  let '(f3, b3, r3) := b_end_w f2 b2 in
+  o1 = BONormal /\ o2 = bout_of_res r2 /\ o3 = bout_of_res r3 /\ BRep s3 f3 b3 /\ bheld s3 = None /\ st b3 = SIdle.
+Proof. exact writing_session_put_code. Qed.
+Print Assumptions C04_code_writing_session_put.
 
 (* put / get / flush and everything they call leave the UKVFile's mode attribute and the lock alone (decided on the
    translated terms, so re-established from the source on every run) *)
